@@ -279,11 +279,25 @@ func txHistRun(sc *TxHistScenario) (res *txHistResult) {
 
 	for _, ev := range sc.Events {
 		switch ev.Op {
-		case "inv":
+		case "reconnect":
+			// the trusted connection drops and is re-established (same process: pool and tracking persist)
+			for doTxStep() { // the tx thread drains its channel during the phased shutdown
+			}
+			sn.reconnect()
+			flags["reconnect"] = true
+		case "inv", "invsilent":
 			inv := wire.NewMsgInv()
 			for _, i := range ev.Txs {
 				h := *txs[i%len(txs)].TxHash()
 				_ = inv.AddInvVect(wire.NewInvVect(wire.InvTypeTx, &h))
+				if ev.Op == "invsilent" {
+					// announced, but this peer will never deliver the body
+					flags["announced-never-delivered"] = true
+					if ev.Src == 0 && sn.node.state.IsReady() {
+						m.vouched[i%len(txs)] = true
+					}
+					continue
+				}
 				if ev.Src == 0 {
 					sn.peer.mempool[h] = txs[i%len(txs)]
 					if sn.node.state.IsReady() {
@@ -502,6 +516,18 @@ func judgeTxHistory(sn *stepNode, sc *TxHistScenario, txs []*wire.MsgTx, idOf ma
 		// (a) must deliver
 		if (procd || blockd) && newCount == 0 {
 			res.add("C03/not-delivered", fmt.Sprintf("relevant tx%d was processed (unconfirmed %v, in block %v) but never delivered as a new transaction", i, procd, blockd))
+		}
+		// a relevant tx in a processed block must have been notified with a merkle proof (C04 statement)
+		if blockd && !m.orphaned[i] {
+			withProof := false
+			for _, n := range ns {
+				if n.ev.State.MerkleProof != nil {
+					withProof = true
+				}
+			}
+			if !withProof {
+				res.add("C03/confirmed-without-proof", fmt.Sprintf("relevant tx%d is in a processed block (step %d) but no notification for it carries a merkle proof", i, m.inBlock[i]))
+			}
 		}
 		// (c) at most once, except after an orphaning reorg
 		allowed := 1
